@@ -49,12 +49,31 @@ var c19formats = map[string]c19format{
 // c19cur is the format of the case being run (cases run one after another)
 var c19cur = c19default
 
+// c19when: the instants at which posts of the running case were sent (empty: stamps are not compared); c19layout: the
+// date layout in force
+var (
+	c19when   []time.Time
+	c19layout = "Jan02 15:04"
+)
+
 // expectedPost renders a post the way the protocol's board format prescribes, with the
 // date left as a pattern.
 func postMatches(block []byte, name string, text []byte) bool {
 	m := c19cur.head.FindSubmatch(block)
 	if m == nil || string(m[1]) != name {
 		return false
+	}
+	// the date stamp is the time of the post in the configured layout (24-hour clock in the default one)
+	if len(c19when) > 0 {
+		ok := false
+		for _, w := range c19when {
+			if string(m[2]) == w.Format(c19layout) || string(m[2]) == w.Add(time.Minute).Format(c19layout) {
+				ok = true
+			}
+		}
+		if !ok {
+			return false
+		}
 	}
 	want := append(bytes.ReplaceAll(text, []byte("\n"), []byte("\r")), []byte(c19cur.tail)...)
 	return bytes.Equal(block[len(m[0]):], want)
@@ -180,7 +199,13 @@ func c19prop(ev *evid.Rec) func(rt *rapid.T) {
 		// the operator's configuration of the post format: default, custom date layout, custom template, both
 		variant := rapid.SampledFrom([]string{"default", "default", "date", "template", "date+tmpl"}).Draw(rt, "postFormat")
 		c19cur = c19formats[variant]
-		defer func() { c19cur = c19default }()
+		c19when, c19layout = nil, "Jan02 15:04"
+		if strings.Contains(variant, "date") {
+			c19layout = c19customDate
+		}
+		defer func() { c19cur, c19when, c19layout = c19default, nil, "Jan02 15:04" }()
+		// the time of day at which the case plays (the bubble's clock starts at midnight)
+		startAfter := time.Duration(rapid.IntRange(0, 24*60-1).Draw(rt, "startMinuteOfDay")) * time.Minute
 		opt := hlsim.Options{Agreement: string(agreement), Board: string(initial), Accounts: []hlsim.AccountSpec{acct("admin", "Admin", "adminpw", func() hlref.Access { a := hlref.AllAccess().Defined(); a.Clear(hlref.PrivNoAgreement); return a }())}}
 		if strings.Contains(variant, "date") {
 			opt.NewsDateFormat = c19customDate
@@ -203,7 +228,9 @@ func c19prop(ev *evid.Rec) func(rt *rapid.T) {
 			var acked []c19post
 			ti := 0
 			id := uint32(100)
+			time.Sleep(startAfter)
 			for ri, rd := range rounds {
+				c19when = append(c19when, time.Now())
 				if failedReload && ri == len(rounds)/2 {
 					// a reload is requested while the board file cannot be read (moved aside by the operator's editor): the
 					// reload fails, and the board the server holds - every post so far - stays what it was
